@@ -3,7 +3,10 @@
 Scenario IR
     start: {"kind": "empty"} or {"kind": "doc", "fmt": "xmi"|"json", "form": "list"|"dict", "sofas": [{id,num,name}...] (document
            order), "fs": [{l,id,member (view name|None),ref (label|None)}...] (document order), "perm": seed for the element order}
-    ops:   new{l,preset?} add{l,keep (true|false|null = argument omitted),view} add_all{ls,view} link{p,c} view{name}
+    ops:   new{l,preset?} add{l,keep (true|false|null = argument omitted),view} add_all{ls,view} link{p,c}
+           view{name,xid?,num?}   xid / num = {mode,arg}: create_view(name, xmiID=.., sofaNum=..) with a value chosen by the
+                                  caller that is not in use: mode above (beyond every value in use, gap arg % 3) | free (an
+                                  unused value below the largest one; none -> above).  Either, both or none may be given.
            save{fmt} reload{fmt} force{l,mode,arg}      mode: as (id of label arg) | below | above | sofa
            every op may carry "h": the operation is issued through the live handle number h mod (number of handles); handles are
            the root Cas, every Cas returned by create_view and by get_view (also after a reload). The model has one shared store.
@@ -28,6 +31,8 @@ RULE = (
     "repetition from 1..40 in shuffled element order, the largest id on a sofa in 2 of 5 documents, sofaNums with gaps and swaps "
     "(_InitialView rarely 1), 0-5 FS that are view members or only referenced; then a history of <= 12 operations over new "
     "(optionally with a preset id), every operation issued through a random live handle (root, create_view and get_view results), add (keep_id True / False / omitted), add_all, link, create_view (incl. an existing name), "
+    "create_view with an xmi:id and / or a sofaNum chosen by the caller (about 4 in 10 create_view calls; a value not in use, "
+    "ahead of the generator with a gap of 0-2 or an unused one below it; 1 scenario in 4 issues create_view more often), "
     "to_xmi, to_json, reload through either format, forcing an FS onto the id of another / an id below the maximum / above it; "
     "1 document in 8 has no _InitialView sofa; 1 scenario in 40 may force an FS onto a sofa's id (open finding "
     "fs_id_equals_sofa_id). A case is non-trivial when it loads a document, generates an id afterwards and serialises.")
@@ -46,6 +51,8 @@ ASSUMPTIONS = [
     "when the CAS is serialised no reachable FS carries an id set from outside (preset xmiID, fs.xmiID = k) that equals a sofa's id "
     "(open finding fs_id_equals_sofa_id: such an FS is written next to the sofa without an error)",
     "no FS carries xmiID 0 (cas:NULL; such FS are silently not written)",
+    "an xmi:id / sofaNum passed to create_view is not in use at that moment (not the id of a sofa or of an FS of the CAS or of "
+    "the loaded document, not the sofaNum of a sofa); create_view does not check this (Props/C09.v C09_chosen_values_unchecked)",
     "all handles of one CAS (root, create_view / get_view results) share the id generator and the sofaNum generator",
 ]
 CASES_PER_SHARD = 150
@@ -287,6 +294,22 @@ def _force_value(op, cas, objs):
     return None
 
 
+def _chosen(spec, used):
+    """a value that is not in `used`: beyond all of them (gap arg % 3) or an unused one below the largest"""
+    top = max(used)
+    if spec["mode"] == "free":
+        free = [k for k in range(1, top) if k not in used]
+        if free:
+            return free[spec["arg"] % len(free)]
+    return top + 1 + spec["arg"] % 3
+
+
+def _doc_ids(start):
+    if start["kind"] != "doc":
+        return set()
+    return {f["id"] for f in start["fs"]} | {s["id"] for s in start["sofas"]}
+
+
 def run_impl(cassis, sc):
     """-> {"first": snapshot, "steps": [{"mop": model op (JSON), "snap", "sofas", "obs"}]}; one entry per *model* op."""
     from cassis import Cas, load_cas_from_json, load_cas_from_xmi
@@ -302,6 +325,7 @@ def run_impl(cassis, sc):
     objs = _handles(cas)
     first = _snap(cas, objs)
     steps = []
+    docids = _doc_ids(start)  # ids of the document the CAS was last loaded from (FS that were not reachable included)
     # live handles: the root and view handles obtained from it; later every Cas returned by create_view / get_view
     handles = [cas] + [cas.get_view(n) for n in sim.views]
 
@@ -373,11 +397,19 @@ def run_impl(cassis, sc):
                 objs[op["p"]].ref = objs[op["c"]]
             emit(["link", op["p"], op["c"]], None)
         elif k == "view":
+            kw, mop = {}, ["view", op["name"]]
+            if op.get("xid") or op.get("num"):
+                if op.get("xid"):
+                    used = docids | {s.xmiID for s in cas.sofas} | {fs.xmiID for fs in objs.values() if fs.xmiID is not None}
+                    kw["xmiID"] = _chosen(op["xid"], used)
+                if op.get("num"):
+                    kw["sofaNum"] = _chosen(op["num"], {s.sofaNum for s in cas.sofas})
+                mop = ["view_at", op["name"], kw.get("xmiID"), kw.get("sofaNum")]
             try:
-                remember(via(op).create_view(op["name"]))
-                emit(["view", op["name"]], None)
+                remember(via(op).create_view(op["name"], **kw))
+                emit(mop, None)
             except ValueError:
-                emit(["view", op["name"]], {"err": "EValue"})
+                emit(mop, {"err": "EValue"})
         elif k == "force":
             fs = objs.get(op["l"])
             val = _force_value(op, cas, objs) if fs is not None else None
@@ -402,6 +434,7 @@ def run_impl(cassis, sc):
                 break
             if k == "reload":
                 cas = load[op["fmt"]](text, typesystem=ts)
+                docids = {i for i, _l in fs_ids} | {x[0] for x in sofas}
                 sim.prune()
                 objs = _handles(cas)
                 handles = [cas] + [cas.get_view(n) for n in sim.views]
@@ -514,6 +547,15 @@ def oracle(cassis, sc, obs):
             if _dups(gen):
                 return f"{tag}: id {_dups(gen)} generated twice in one step"
             new_sofas = [s for s in st["sofas"] if s[2] not in {x[2] for x in prev["sofas"]}]
+            if mop[0] == "view_at" and not st["obs"]:
+                # create_view(name, xmiID=, sofaNum=): the sofa carries the values the caller chose
+                if [x[2] for x in new_sofas] != [mop[1]]:
+                    return f"{tag}: create_view({mop[1]}) did not add exactly that sofa: {new_sofas}"
+                i, num, _name = new_sofas[0]
+                if mop[2] is not None and i != mop[2]:
+                    return f"{tag}: create_view({mop[1]}, xmiID={mop[2]}) made a sofa with id {i}"
+                if mop[3] is not None and num != mop[3]:
+                    return f"{tag}: create_view({mop[1]}, sofaNum={mop[3]}) made a sofa with sofaNum {num}"
             for i, num, name in new_sofas:
                 if i in base_all or i in psid or i in {x for ll, x in pmap.items() if x is not None and ll not in pend0}:
                     return f"{tag}: new sofa {name} got id {i} which is already in use"
@@ -622,6 +664,9 @@ def _gop(m):
         return f"OpLink {gz(m[1])} {gz(m[2])}"
     if k == "view":
         return f"OpCreateView {gstr(m[1])}"
+    if k == "view_at":
+        oz = lambda v: "None" if v is None else f"(Some {gz(v)})"
+        return f"OpCreateViewAt {gstr(m[1])} {oz(m[2])} {oz(m[3])}"
     if k == "save":
         return f"OpSave {glist([gz(x) for x in m[1]])}"
     if k == "reload":
@@ -703,13 +748,26 @@ def gen_scenario(rng, tier):
     ops = []
     nxt = 10 + max([0] + list(sim.fs))
     n = rng.randint(3, 12)
-    vnames = ["v1", "v2", "v3", "w"]
+    vnames = ["v1", "v2", "v3", "w", "x", "y"]
+    viewy = rng.random() < 0.25  # create_view is issued more often
+
+    def gen_view():
+        op = {"op": "view", "name": rng.choice(vnames)}
+        if rng.random() < 0.42:
+            which = rng.choice(["xid", "num", "both"])
+            for key in ("xid", "num"):
+                if which in (key, "both"):
+                    op[key] = {"mode": rng.choice(["above", "above", "free"]), "arg": rng.randint(0, 5)}
+        return op
+
     for step in range(n):
         labels = sorted(sim.fs)
         r = rng.random()
         last = step == n - 1
         if last and rng.random() < 0.7:
             op = {"op": rng.choice(["save", "save", "reload"]), "fmt": rng.choice(["xmi", "json"])}
+        elif viewy and rng.random() < 0.25:
+            op = gen_view()
         elif r < 0.17 or not labels:
             op = {"op": "new", "l": nxt}
             nxt += 1
@@ -727,7 +785,7 @@ def gen_scenario(rng, tier):
             if not CYCLES and sim.reaches(op["c"], op["p"]):
                 op = {"op": "link", "p": op["c"], "c": op["p"]} if not sim.reaches(op["p"], op["c"]) else {"op": "view", "name": "w"}
         elif r < 0.72:
-            op = {"op": "view", "name": rng.choice(vnames)}
+            op = gen_view()
         elif r < 0.82:
             op = {"op": "save", "fmt": rng.choice(["xmi", "json"])}
         elif r < 0.90:
@@ -773,6 +831,18 @@ def _directed():
                 "ops": [{"op": "new", "l": 10, "preset": {"mode": "above", "arg": 1}}, {"op": "add", "l": 10, "keep": True, "view": INIT},
                         {"op": "view", "name": "v1"}, {"op": "view", "name": "v2"}, {"op": "new", "l": 11},
                         {"op": "add", "l": 11, "keep": None, "view": "v2"}, {"op": "save", "fmt": "xmi"}, {"op": "reload", "fmt": "json"}]})
+    # values chosen by the caller of create_view ahead of both generators (gaps), then enough generated ids / sofaNums for
+    # the generators to pass them; also an unused value below the generators
+    for st in ({"kind": "empty"},
+               {"kind": "doc", "fmt": "json", "form": "dict", "perm": 3, "sofas": [{"id": 6, "num": 2, "name": INIT}],
+                "fs": [{"l": 1, "id": 2, "member": INIT, "ref": None}]}):
+        out.append({"start": st,
+                    "ops": [{"op": "view", "name": "v1", "xid": {"mode": "above", "arg": 2}, "num": {"mode": "above", "arg": 1}},
+                            {"op": "view", "name": "v2"}, {"op": "new", "l": 11}, {"op": "add", "l": 11, "keep": None, "view": "v2"},
+                            {"op": "view", "name": "v3", "h": 3}, {"op": "new", "l": 12}, {"op": "add", "l": 12, "keep": None, "view": "v1"},
+                            {"op": "view", "name": "w", "xid": {"mode": "free", "arg": 0}, "num": {"mode": "free", "arg": 1}},
+                            {"op": "view", "name": "x", "h": 2}, {"op": "save", "fmt": "xmi"}, {"op": "reload", "fmt": "json"},
+                            {"op": "view", "name": "y"}]})
     # repaired: documents without an _InitialView sofa, FS id 1 / sofaNum 1 in the document (941f890)
     for fmt in ("xmi", "json"):
         out.append({"start": {"kind": "doc", "fmt": fmt, "form": "list", "perm": 2, "sofas": [{"id": 5, "num": 1, "name": "v1"}],
@@ -866,12 +936,14 @@ def distribution(scenarios, observations):
                                          max([0] + [f["id"] for f in s["start"]["fs"]])),
             "initial_view_sofanum_not_1": sum(1 for s in docs if any(x["name"] == INIT and x["num"] != 1 for x in s["start"]["sofas"])),
             "without_initial_view": sum(1 for s in docs if not any(x["name"] == INIT for x in s["start"]["sofas"])),
+            "create_view_with_chosen_id": sum(1 for s in scenarios for o in s["ops"] if o["op"] == "view" and o.get("xid")),
+            "create_view_with_chosen_sofanum": sum(1 for s in scenarios for o in s["ops"] if o["op"] == "view" and o.get("num")),
             "ops": kinds, "documents_written": written, "duplicate_errors": errs}
 
 
 MANIFEST = {
     "level_text": "Machine-checked proof (Coq 8.16) over an executable model of the id generators, Cas.add / create_view, the id part "
-                  "of Cas._find_all_fs and the max-id bookkeeping of both readers: for every history from Cas() or from a document "
+                  "(also with an xmi:id / sofaNum chosen by the caller) of Cas._find_all_fs and the max-id bookkeeping of both readers: for every history from Cas() or from a document "
                   "with distinct ids and an _InitialView sofa, and for every traversal order, generated and loaded ids stay below "
                   "the generator, fresh ids are unused, sofaNums are unique, written documents carry pairwise distinct ids, loaded "
                   "ids are kept, and two reachable FS forced onto one id make serialising fail. The model is compared with /repo on "
